@@ -171,6 +171,9 @@ def make_adapter(casbin, initial, fail_after=None, is_async=False):
 
         def update_filtered_policies(self, sec, ptype, new_rules, field_index, *field_values):
             """faithful: replaces the rules its own store selects by the new ones (set semantics) and returns the selection"""
+            if getattr(self, "uf_raises", None):
+                self.log.append("update_filtered_policies/RAISES")
+                raise self.uf_raises("this adapter cannot update by filter")
             self.log.append(f"update_filtered_policies/{ptype}/{enc_rules(new_rules)}/{field_index}/{enc_list([enc_str(v) for v in field_values])}")
             l = self._l(sec, ptype)
             old = [x for x in l if all(v == "" or x[field_index + i] == v for i, v in enumerate(field_values))]  # may raise IndexError
